@@ -1,6 +1,7 @@
 import Psa.AdmitProps
 import Psa.AdmitCases
 import Psa.Props.C08
+import Psa.ExpectedFacts
 /-! # C09 — pod controllers are never denied and their template is judged like the pod
 All eight kinds are `Obj.controller template` after ExtractPodSpec (the resource table and type switch are tied by
 fact F7 and by the correspondence, which wraps one pod in every kind). -/
@@ -60,9 +61,13 @@ theorem C09_quiet_privileged (pv) (cfg : Config) (w : World Ev) (r : Request) (l
   simp only [validateController, h0, h1, h2, h3, ne_eq, not_true_eq_false, Bool.false_eq_true, ↓reduceIte, h.1, h.2.1, h.2.2,
     List.isEmpty_nil, beq_self_eq_true, Bool.and_self]
 
+/-- tie obligation (F7): the pod-bearing resources are pods and the eight controller kinds -/
+theorem C09_resources : Generated.podSpecResources = Expected.podSpecResources := by decide
+
 #print axioms C09_allowed
 #print axioms C09_same_findings
 #print axioms C09_quiet_subresource
 #print axioms C09_quiet_no_template
 #print axioms C09_quiet_privileged
+#print axioms C09_resources
 end PSA.Props
